@@ -67,7 +67,10 @@ func (o c05Obs) wire() string {
 type c05Env struct {
 	e      *echo.Echo
 	nroute int
+	shared []string // an application-level slice the handlers pass to SetParamValues again and again
 }
+
+var c05SharedPristine = []string{"s1", "s2", "s3", "s4", "s5", "s6"}
 
 type c05ReqState struct {
 	id   int
@@ -80,7 +83,7 @@ const c05Key = "c05-state"
 func c05NewEnv() *c05Env {
 	e := echo.New()
 	e.Logger.SetOutput(nopWriter{})
-	env := &c05Env{e: e}
+	env := &c05Env{e: e, shared: append([]string{}, c05SharedPristine...)}
 	e.Use(func(next echo.HandlerFunc) echo.HandlerFunc {
 		return func(c echo.Context) error {
 			st := c.Request().Context().Value(c05CtxKey{}).(*c05ReqState)
@@ -113,6 +116,13 @@ func c05NewEnv() *c05Env {
 			} else {
 				o.logger = "-"
 			}
+			// the application's own slice must never be written through by the framework
+			for i, v := range env.shared {
+				if v != c05SharedPristine[i] {
+					o.store = append(o.store, "shared-slice-clobbered", strconv.Itoa(i))
+					env.shared[i] = c05SharedPristine[i]
+				}
+			}
 			o.status = c.Response().Status
 			o.size = c.Response().Size
 			o.committed = c.Response().Committed
@@ -131,7 +141,7 @@ func (env *c05Env) register(r rRoute) {
 		st := c.Request().Context().Value(c05CtxKey{}).(*c05ReqState)
 		st.obs.kind = 0
 		st.obs.hid = hid
-		failed := false
+		failed, silent := false, false
 		for _, op := range st.prog {
 			switch op.Kind {
 			case "set":
@@ -140,6 +150,10 @@ func (env *c05Env) register(r rRoute) {
 				c.SetParamNames(op.L...)
 			case "setParamValues":
 				c.SetParamValues(op.L...)
+			case "setSharedValues":
+				c.SetParamValues(env.shared[:op.A]...)
+			case "silent":
+				silent = true // the handler will return nil without writing a response itself
 			case "setPath":
 				c.SetPath(op.S)
 			case "setLogger":
@@ -174,6 +188,9 @@ func (env *c05Env) register(r rRoute) {
 		}
 		if failed {
 			return echo.NewHTTPError(http.StatusTeapot, "handler failed")
+		}
+		if silent {
+			return nil
 		}
 		if !c.Response().Committed {
 			return c.NoContent(http.StatusOK)
@@ -230,6 +247,10 @@ func c05HOpWire(op c05HOp) string {
 		return wJoin("9", wInt(op.A))
 	case "panic":
 		return "10"
+	case "setSharedValues":
+		return wJoin("2", wStrs(c05SharedPristine[:op.A]))
+	case "silent":
+		return "11" // like fail for the context: nothing more happens to it
 	}
 	return "11"
 }
@@ -374,6 +395,12 @@ func c05GenProg(r *rand.Rand) []c05HOp {
 			}
 		case 11:
 			p = append(p, c05HOp{Kind: "fail"})
+		case 12:
+			if r.Intn(2) == 0 {
+				p = append(p, c05HOp{Kind: "setSharedValues", A: 1 + r.Intn(6)})
+			} else {
+				p = append(p, c05HOp{Kind: "silent"})
+			}
 		}
 	}
 	return p
